@@ -23,6 +23,14 @@ Theorem C04_invocations_are_batches : forall c tmpl args outs, c_replace c = fal
 Proof. intros c tmpl args outs H0 H1 H2. exact (run_no_fatal c tmpl H1 args outs H0 H2). Qed.
 Print Assumptions C04_invocations_are_batches.
 
+(* Nothing is lost to an input error either: when the reader fails after the arguments [args] (an unterminated quote, a read
+   error), the invocations made are exactly those of the run on [args] alone under -r - every complete argument is delivered, in
+   the same batches - and only then is the error reported (status 1: C19_input_error). *)
+Theorem C04_input_error_keeps_arguments : forall c tmpl args ls cur p st,
+  snd (process_x c tmpl ls cur p args true st) = snd (process_x (with_r c) tmpl ls cur p args false st).
+Proof. exact input_error_invocations. Qed.
+Print Assumptions C04_input_error_keeps_arguments.
+
 (* Lossless and ordered; every batch within all limits at once; maximal; empty input;
    an argument that cannot be placed ends the run (exit 1 by the theorem above) after a
    greedy batching of a prefix - it is never truncated, split or dropped silently. *)
